@@ -313,7 +313,7 @@ where
 fn raw_job<O: raw::RawOp>(cases: Vec<(O, O::In)>, sopts: SoundOpts, seed: u64, label: String) -> Job {
     Box::new(move |parent: &Report| {
         let mut part = parent.fork();
-        let name = cases.first().map(|c| c.0.name()).unwrap_or_default();
+        let name = cases.first().map(|c| c.0.label()).unwrap_or_default();
         let mut rng = rng_for(seed, &format!("c07-raw-{label}"));
         let st = check_raw(&cases, &sopts, &mut rng, &mut part);
         (part, name, st)
@@ -679,7 +679,7 @@ fn main() {
 
     // ---------------- Part B ----------------
     let mut rng = ctx.rng("c07-workload");
-    let mut jobs: Vec<(u32, Job)> = vec![]; // (weight for scheduling: heavy first, job)
+    let mut jobs: Vec<(u32, String, Job)> = vec![]; // (weight for scheduling: heavy first, label, job)
     let mut lens_cov: BTreeMap<String, Json> = BTreeMap::new();
     let mut filler_cov: BTreeMap<String, u64> = BTreeMap::new();
     let big = big_budget(thorough);
@@ -728,7 +728,7 @@ fn main() {
             if !(thorough || i % 6 == 0) {
                 so.seeded_runs = 0;
             }
-            jobs.push((len as u32 + 200, std_job(StdHash { alg: *alg, len }, inputs, opts_big.clone(), so, seed)));
+            jobs.push((len as u32 + 200, alg.name().to_string(), std_job(StdHash { alg: *alg, len }, inputs, opts_big.clone(), so, seed)));
         }
     }
     // Poseidon of the façade: 0..=12 inputs
@@ -736,7 +736,7 @@ fn main() {
     lens_cov.insert("poseidon".into(), json!(plens));
     for &len in &plens {
         let inputs = poseidon_inputs(&mut rng, len, ctx.tier.pick(2, 5));
-        jobs.push((len as u32, std_job(StdPoseidon { len }, inputs, opts_small.clone(), sound_small.clone(), seed)));
+        jobs.push((len as u32, "poseidon".into(), std_job(StdPoseidon { len }, inputs, opts_small.clone(), sound_small.clone(), seed)));
     }
     // RIPEMD-160 (from scratch)
     let rlens = md_lengths(thorough, 130, &[], &mut rng);
@@ -750,7 +750,7 @@ fn main() {
         if !(thorough || i % 6 == 0) {
             so.seeded_runs = 0;
         }
-        jobs.push((len as u32 + 200, raw_job(cases, so, seed, format!("ripemd-{len}"))));
+        jobs.push((len as u32 + 200, "ripemd160".into(), raw_job(cases, so, seed, format!("ripemd-{len}"))));
     }
     // variable-length SHA-256
     let all4 = [0usize, 1, 2, 3];
@@ -769,14 +769,14 @@ fn main() {
             if i % 4 != 0 {
                 s.ars_positions = 0;
             }
-            jobs.push((400, raw_job(vec![c], s, seed, format!("vsha64-{i}"))));
+            jobs.push((400, "sha256_varlen".into(), raw_job(vec![c], s, seed, format!("vsha64-{i}"))));
         }
         for (i, c) in var_sha_cases::<128>(&l128, fillers, true, &mut rng, &mut filler_cov).into_iter().enumerate() {
             let mut s = so.clone();
             if i % 4 != 0 {
                 s.ars_positions = 0;
             }
-            jobs.push((500, raw_job(vec![c], s, seed, format!("vsha128-{i}"))));
+            jobs.push((500, "sha256_varlen".into(), raw_job(vec![c], s, seed, format!("vsha128-{i}"))));
         }
     }
     // variable-length Poseidon
@@ -792,10 +792,10 @@ fn main() {
         so.edit_positions = 1;
         so.ars_positions = 1;
         for (i, c) in var_pos_cases::<64>(&l64, fillers, true, &mut rng, &mut filler_cov).into_iter().enumerate() {
-            jobs.push((100, raw_job(vec![c], so.clone(), seed, format!("vpos64-{i}"))));
+            jobs.push((100, "poseidon_varlen".into(), raw_job(vec![c], so.clone(), seed, format!("vpos64-{i}"))));
         }
         for (i, c) in var_pos_cases::<128>(&l128, fillers, true, &mut rng, &mut filler_cov).into_iter().enumerate() {
-            jobs.push((150, raw_job(vec![c], so.clone(), seed, format!("vpos128-{i}"))));
+            jobs.push((150, "poseidon_varlen".into(), raw_job(vec![c], so.clone(), seed, format!("vpos128-{i}"))));
         }
     }
     // in-circuit sponge scripts
@@ -806,22 +806,38 @@ fn main() {
             let xs: Vec<F> = (0..s.n_inputs()).map(|_| F::random(&mut rng)).collect();
             let mut so = sound_small.clone();
             so.seeded_runs = ctx.tier.pick(2, 6);
-            jobs.push((50, raw_job(vec![(s, xs)], so, seed, format!("sponge-{i}"))));
+            jobs.push((50, "poseidon_sponge".into(), raw_job(vec![(s, xs)], so, seed, format!("sponge-{i}"))));
         }
     }
 
+    // `--only a,b` (development / mutation runs): keep the jobs whose gadget name is listed; the
+    // workload itself is generated as in a full run, so the kept cases are the full run's cases
+    let only: Option<Vec<String>> = ctx.extra.get("only").map(|s| s.split(',').map(|x| x.trim().to_string()).collect());
+    if let Some(only) = &only {
+        jobs.retain(|(_, label, _)| only.iter().any(|o| o == label));
+        rep.set("only", json!(only));
+    }
     let n_jobs = jobs.len();
-    jobs.sort_by_key(|(w, _)| std::cmp::Reverse(*w));
+    jobs.sort_by_key(|(w, _, _)| std::cmp::Reverse(*w));
     let parent = rep.fork();
-    let results: Vec<(Report, String, SoundStats)> = jobs.into_par_iter().map(|(_, job)| job(&parent)).collect();
+    let results: Vec<Result<(Report, String, SoundStats), PanicInfo>> = jobs.into_par_iter().map(|(_, _, job)| catch_any(|| job(&parent))).collect();
     let mut per_op: BTreeMap<String, SoundStats> = BTreeMap::new();
-    for (part, name, st) in results {
-        rep.merge(part);
-        per_op.entry(name).or_default().add(&st);
+    for r in results {
+        match r {
+            Ok((part, name, st)) => {
+                rep.merge(part);
+                per_op.entry(name).or_default().add(&st);
+            }
+            // a panic that escaped the per-stage capture is a harness problem, never a verdict
+            Err(p) => rep.inconclusive(&format!("job panicked outside the monitored calls: {} at {}", p.message, p.location)),
+        }
     }
     // every planned gadget must have been exercised
     for name in ["sha2_256", "sha2_512", "sha3_256", "keccak_256", "blake2b_256", "blake2b_512", "poseidon", "ripemd160", "sha256_varlen[M=64]", "sha256_varlen[M=128]",
                  "poseidon_varlen[M=64]", "poseidon_varlen[M=128]", "poseidon_sponge[fixed]", "poseidon_sponge[streaming]"] {
+        if only.is_some() {
+            break;
+        }
         if per_op.get(name).map(|s| s.honest).unwrap_or(0) == 0 {
             rep.inconclusive(&format!("no case executed for {name}"));
         }
@@ -844,6 +860,6 @@ fn main() {
             "real-prover confirmation for from-scratch circuits (no stdlib relation); SHA-512/Keccak/BLAKE2b/RIPEMD/varlen circuits are k >= 13"
         ]),
     );
-    rep.min_nontrivial = ctx.tier.pick(300, 3000);
+    rep.min_nontrivial = if only.is_some() { 2 } else { ctx.tier.pick(300, 3000) };
     rep.finish();
 }
